@@ -174,6 +174,50 @@ route_decoder(const char *text)
         emit_fsg("decoder", ((fsg_search_t *)dec->search)->fsg, decoder_logmath(dec), 1);
 }
 
+/* route t: the decoder with a configured start rule (toprule).  First a name no grammar defines: the grammar must
+ * be refused, not compiled from some other rule.  Then the public rule named explicitly (grammar.rule): the same
+ * language as without the parameter. */
+static void
+route_toprule(const char *text)
+{
+    jsgf_t *j;
+    int r;
+    if (dec == NULL) {
+        config_t *config = config_init(NULL);
+        config_set_str(config, "hmm", hmmdir);
+        config_set_str(config, "dict", dictpath);
+        config_set_str(config, "loglevel", "FATAL");
+        dec = decoder_init(config);
+        if (dec == NULL) {
+            fprintf(stderr, "jsgf_drv: decoder_init failed\n");
+            exit(4);
+        }
+    }
+    config_set_str(decoder_config(dec), "toprule", "zz_no_such_grammar.zz_no_such_rule");
+    r = decoder_set_jsgf_string(dec, text);
+    fprintf(vt_out, "{\"e\":\"TopRule\",\"defined\":false,\"refused\":%s}\n", r != 0 ? "true" : "false");
+    j = jsgf_parse_string(text, NULL);
+    if (j) {
+        jsgf_rule_t *rule = jsgf_get_public_rule(j);
+        if (rule) {
+            char name[512];
+            const char *rn = jsgf_rule_name(rule); /* "<grammar.rule>" */
+            size_t n = strlen(rn);
+            if (n > 2 && n < sizeof(name) && rn[0] == '<') {
+                memcpy(name, rn + 1, n - 2);
+                name[n - 2] = 0;
+                config_set_str(decoder_config(dec), "toprule", name);
+                if (decoder_set_jsgf_string(dec, text) != 0)
+                    emit_refused("toprule", 1, 1);
+                else
+                    emit_fsg("toprule", ((fsg_search_t *)dec->search)->fsg, decoder_logmath(dec), 1);
+            }
+        }
+        jsgf_grammar_free(j);
+    }
+    config_set_str(decoder_config(dec), "toprule", NULL);
+}
+
 int
 main(int argc, char *argv[])
 {
@@ -218,6 +262,9 @@ main(int argc, char *argv[])
                     break;
                 case 'd':
                     route_decoder(text);
+                    break;
+                case 't':
+                    route_toprule(text);
                     break;
                 default:
                     break;
